@@ -314,7 +314,14 @@ func c05FreshNames(r *core.Run, prog *core.Program) {
 		}
 		return ""
 	}
-	// instance tables per kind
+	// a table is named by what it is, not by the identifiers used to reach it: a field of the instance is
+	// "(BasmInstance).sections", a local or parameter map is "(scratch BasmSection table)"
+	canonTable := func(e ast.Expr) string {
+		if f := core.FieldOf(info, e); f != nil {
+			return "(BasmInstance)." + f.Name()
+		}
+		return "(scratch " + tableKind(e) + " table)"
+	}
 	instTables := map[string][]string{}
 	if tn, ok := pk.Types.Scope().Lookup("BasmInstance").(*types.TypeName); ok {
 		if st, ok := tn.Type().Underlying().(*types.Struct); ok {
@@ -325,15 +332,32 @@ func c05FreshNames(r *core.Run, prog *core.Program) {
 						el = p.Elem()
 					}
 					if n, ok := el.(*types.Named); ok && named[n.Obj().Name()] {
-						instTables[n.Obj().Name()] = append(instTables[n.Obj().Name()], st.Field(i).Name())
+						instTables[n.Obj().Name()] = append(instTables[n.Obj().Name()], "(BasmInstance)."+st.Field(i).Name())
 					}
 				}
 			}
 		}
 	}
-	n := 0
+	decls := map[types.Object]*ast.FuncDecl{}
 	core.FuncDecls(pk, func(_ *ast.File, fd *ast.FuncDecl) {
-		// single-assignment string locals, for inlining
+		if o := info.Defs[fd.Name]; o != nil {
+			decls[o] = fd
+		}
+	})
+	// per function: single-assignment string locals (for inlining), numbered-name test, absence tests
+	type fnFacts struct {
+		inline   func(e ast.Expr, d int) string
+		numbered func(e ast.Expr, d int) bool
+		tests    map[string]bool // "<canonical table>|<key>"
+	}
+	factsOf := map[*ast.FuncDecl]*fnFacts{}
+	var facts func(fd *ast.FuncDecl) *fnFacts
+	facts = func(fd *ast.FuncDecl) *fnFacts {
+		if f, ok := factsOf[fd]; ok {
+			return f
+		}
+		ff := &fnFacts{tests: map[string]bool{}}
+		factsOf[fd] = ff
 		defs := map[types.Object]ast.Expr{}
 		cnt := map[types.Object]int{}
 		ast.Inspect(fd.Body, func(k ast.Node) bool {
@@ -349,22 +373,21 @@ func c05FreshNames(r *core.Run, prog *core.Program) {
 			}
 			return true
 		})
-		var inline func(e ast.Expr, d int) string
-		inline = func(e ast.Expr, d int) string {
+		ff.inline = func(e ast.Expr, d int) string {
 			switch x := ast.Unparen(e).(type) {
 			case *ast.Ident:
 				if o := info.ObjectOf(x); o != nil && cnt[o] == 1 && d < 4 {
 					if b, ok := o.Type().Underlying().(*types.Basic); ok && b.Info()&types.IsString != 0 {
-						return inline(defs[o], d+1)
+						return ff.inline(defs[o], d+1)
 					}
 				}
 				return x.Name
 			case *ast.BinaryExpr:
-				return inline(x.X, d) + x.Op.String() + inline(x.Y, d)
+				return ff.inline(x.X, d) + x.Op.String() + ff.inline(x.Y, d)
 			}
 			return types.ExprString(e)
 		}
-		numbered := func(e ast.Expr, d int) bool {
+		ff.numbered = func(e ast.Expr, d int) bool {
 			found := false
 			var visit func(e ast.Expr, d int)
 			visit = func(e ast.Expr, d int) {
@@ -395,32 +418,92 @@ func c05FreshNames(r *core.Run, prog *core.Program) {
 			visit(e, d)
 			return found
 		}
-		// absence tests: v, ok := M[k]
-		tests := map[string]bool{} // "<table expr>|<key>"
 		ast.Inspect(fd.Body, func(k ast.Node) bool {
-			var lhs, rhs []ast.Expr
-			switch x := k.(type) {
-			case *ast.AssignStmt:
-				lhs, rhs = x.Lhs, x.Rhs
-			default:
+			as, ok := k.(*ast.AssignStmt)
+			if !ok {
 				return true
 			}
-			if len(lhs) == 2 && len(rhs) == 1 {
-				if ie, ok := ast.Unparen(rhs[0]).(*ast.IndexExpr); ok && tableKind(ie.X) != "" {
-					tests[types.ExprString(ie.X)+"|"+inline(ie.Index, 0)] = true
+			if len(as.Lhs) == 2 && len(as.Rhs) == 1 {
+				if ie, ok := ast.Unparen(as.Rhs[0]).(*ast.IndexExpr); ok && tableKind(ie.X) != "" {
+					ff.tests[canonTable(ie.X)+"|"+ff.inline(ie.Index, 0)] = true
 				}
 			}
 			return true
 		})
-		recvName := ""
-		if fd.Recv != nil && len(fd.Recv.List) > 0 && len(fd.Recv.List[0].Names) > 0 {
-			recvName = fd.Recv.List[0].Names[0].Name
-		} else {
-			for _, p := range fd.Type.Params.List {
-				if t := info.TypeOf(p.Type); t != nil && strings.HasSuffix(t.String(), "basm.BasmInstance") && len(p.Names) > 0 {
-					recvName = p.Names[0].Name
+		return ff
+	}
+	// freshFrom: the key is the result of a package helper that returns a numbered name it has tested:
+	// returns the set of canonical tables the helper tested for every name it can return
+	freshFrom := func(e ast.Expr) (map[string]bool, bool) {
+		call, ok := ast.Unparen(e).(*ast.CallExpr)
+		if !ok {
+			return nil, false
+		}
+		h, ok := decls[core.CalleeOf(info, call)]
+		if !ok || h.Type.Results == nil || len(h.Type.Results.List) != 1 {
+			return nil, false
+		}
+		hf := facts(h)
+		var tested map[string]bool
+		numberedAny := false
+		ast.Inspect(h.Body, func(k ast.Node) bool {
+			ret, ok := k.(*ast.ReturnStmt)
+			if !ok || len(ret.Results) != 1 {
+				return true
+			}
+			if !hf.numbered(ret.Results[0], 0) {
+				return true
+			}
+			numberedAny = true
+			key := hf.inline(ret.Results[0], 0)
+			cur := map[string]bool{}
+			for t := range hf.tests {
+				if strings.HasSuffix(t, "|"+key) {
+					cur[strings.TrimSuffix(t, "|"+key)] = true
 				}
 			}
+			if tested == nil {
+				tested = cur
+			} else {
+				for t := range tested {
+					if !cur[t] {
+						delete(tested, t)
+					}
+				}
+			}
+			return true
+		})
+		return tested, numberedAny
+	}
+	n := 0
+	core.FuncDecls(pk, func(_ *ast.File, fd *ast.FuncDecl) {
+		ff := facts(fd)
+		// the key may be a single-assignment local holding a helper's result
+		resolve := func(e ast.Expr) ast.Expr {
+			for d := 0; d < 3; d++ {
+				id, ok := ast.Unparen(e).(*ast.Ident)
+				if !ok {
+					return e
+				}
+				var def ast.Expr
+				c := 0
+				ast.Inspect(fd.Body, func(k ast.Node) bool {
+					if as, ok := k.(*ast.AssignStmt); ok && len(as.Lhs) == len(as.Rhs) {
+						for i, l := range as.Lhs {
+							if lid, ok := l.(*ast.Ident); ok && info.ObjectOf(lid) == info.ObjectOf(id) {
+								c++
+								def = as.Rhs[i]
+							}
+						}
+					}
+					return true
+				})
+				if c != 1 {
+					return e
+				}
+				e = def
+			}
+			return e
 		}
 		k := 0
 		ast.Inspect(fd.Body, func(nd ast.Node) bool {
@@ -434,28 +517,33 @@ func c05FreshNames(r *core.Run, prog *core.Program) {
 					continue
 				}
 				kind := tableKind(ie.X)
-				if kind == "" || !numbered(ie.Index, 0) {
+				if kind == "" {
+					continue
+				}
+				helperTested, viaHelper := freshFrom(resolve(ie.Index))
+				if !viaHelper && !ff.numbered(ie.Index, 0) {
 					continue
 				}
 				k++
 				n++
-				key := inline(ie.Index, 0)
-				need := []string{types.ExprString(ie.X)}
-				if recvName != "" {
-					for _, f := range instTables[kind] {
-						t := recvName + "." + f
-						if t != need[0] {
-							need = append(need, t)
-						}
+				need := []string{canonTable(ie.X)}
+				for _, t := range instTables[kind] {
+					if t != need[0] {
+						need = append(need, t)
 					}
 				}
+				key := ff.inline(ie.Index, 0)
 				var missing []string
 				for _, t := range need {
-					if !tests[t+"|"+key] {
+					if viaHelper {
+						if !helperTested[t] {
+							missing = append(missing, t)
+						}
+					} else if !ff.tests[t+"|"+key] {
 						missing = append(missing, t)
 					}
 				}
-				inst := fmt.Sprintf("C05/FRESHNAME:%s:store%d:%s", core.FuncKey(pk, fd), k, types.ExprString(ie.X))
+				inst := fmt.Sprintf("C05/FRESHNAME:%s:store%d:%s", core.FuncKey(pk, fd), k, canonTable(ie.X))
 				if len(missing) == 0 {
 					r.OK("C05/FRESHNAME", inst, prog.Pos(as.Pos()), "the numbered name is tested to be free in ["+strings.Join(need, ", ")+"] before it is used")
 				} else {
